@@ -61,6 +61,14 @@ fn main() {
                 _ => usage(),
             }
         }
+        "miri" | "seq" => {
+            let prop = arg_val(&args, "--property").unwrap_or_else(|| usage());
+            let runs = arg_val(&args, "--runs").and_then(|s| s.parse::<u64>().ok()).unwrap_or(20);
+            let first = arg_val(&args, "--first").and_then(|s| s.parse::<u64>().ok()).unwrap_or(0);
+            let seed = arg_val(&args, "--seed").and_then(|s| s.parse::<u64>().ok()).unwrap_or(batch::DEFAULT_SEED);
+            let backend = arg_val(&args, "--backend").unwrap_or_else(|| "threads".into());
+            batch::run_sequential(&prop, runs, seed, &backend, first)
+        }
         "min" => {
             let prop = arg_val(&args, "--property").unwrap_or_else(|| usage());
             let world = arg_val(&args, "--world").unwrap_or_else(|| "blocking".into());
